@@ -13,6 +13,8 @@ import EaselModel.Sqio.MsaSeqSto
 import EaselModel.Sqio.MsaSeqPhy
 import EaselModel.Sqio.MsaSeqAll
 import EaselModel.Sqio.EmblSeqTotal
+import EaselModel.Sqio.EmblInfoTotal
+import EaselModel.Sqio.EmblHistory
 /-! # C02 — sequence-file input is total: any bytes give a normal outcome
 
 Property theorems only (proofs are glue on `Sqio/Refine.lean`, `Sqio/NoFault.lean`).
@@ -33,7 +35,8 @@ whole-sequence `ReadBlock` are total for EVERY byte string (`read_total`, `readI
 the forward `ReadWindow` are total for EVERY byte string too — illegal bytes included — (`read_nres_total_any`, `readWindow_total`):
 `eslOK` / `eslEOD` / `eslEOF` / `eslEFORMAT` with a message, no exception, never `fault`. NOT proved (tied by the differential run +
 sanitizer build + record monitor): reverse-strand windows on malformed data, long-target `ReadBlock`, daemon / hmmpgmd, the guessers and
-the alignment-as-sequences branch. EMBL / UniProt / GenBank / DDBJ: `sqascii_Read` is total for every byte string (`read_linebased_total`). -/
+the alignment-as-sequences branch. EMBL / UniProt / GenBank / DDBJ: `sqascii_Read`, `ReadSequence` and `ReadInfo` are total for every byte string (`read_linebased_total`,
+`readSequence_linebased_total`, `readInfo_linebased_total`). -/
 namespace EaselModel.Props.C02
 open EaselModel.Sqio EaselModel.Sqio.Refine EaselModel.Sqio.NoFault
 
@@ -218,6 +221,19 @@ theorem readSequence_linebased_total (a : Ascii) (sq : Sq) (w : LWF a) (hf : Lin
     ((readSequence a sq).2.2 = .eformat → (readSequence a sq).1.haveErr = true) ∧ (readSequence a sq).1.exc = a.exc ∧ LWF (readSequence a sq).1 ∧
     (readSequence a sq).1.fmt = a.fmt ∧ (readSequence a sq).1.file = a.file ∧ (readSequence a sq).1.inmap = a.inmap :=
   EmblTotal.readSequence_linebased_total a sq w hf tok hm hmap
+
+open EaselModel.Sqio.BodySpec EaselModel.Sqio.LineSpec EaselModel.Sqio.EmblAll in
+/-- **`sqascii_ReadInfo` on the line-based formats (EMBL / UniProt / GenBank / DDBJ) is total for EVERY byte string and every block
+    size** (round 6b): `parse_header` + the residue loop without storing (`seebuf` only) + the record end + the info-only coordinates:
+    `eslOK`, `eslEOF` or `eslEFORMAT` with a message, no exception, never `fault` (the loop never runs away: every pass consumes a line;
+    the terminator store of the info record fits: header parsers and loop never touch the residue allocation); the handle stays a
+    line-mode handle on the same file. The only hypothesis on the `ESL_SQ`: the two bytes every `esl_sq_Create*` allocates. -/
+theorem readInfo_linebased_total (a : Ascii) (sq : Sq) (w : LWF a) (hf : LineFmt a) (tok : Fold.Track.Ok a.trk) (hm : a.inmap.size = 128)
+    (hsa : 2 ≤ sq.salloc) :
+    ((readInfo a sq).2.2 = .ok ∨ (readInfo a sq).2.2 = .eof ∨ (readInfo a sq).2.2 = .eformat) ∧
+    ((readInfo a sq).2.2 = .eformat → (readInfo a sq).1.haveErr = true) ∧ (readInfo a sq).1.exc = a.exc ∧ LWF (readInfo a sq).1 ∧
+    (readInfo a sq).1.fmt = a.fmt ∧ (readInfo a sq).1.file = a.file ∧ (readInfo a sq).1.inmap = a.inmap :=
+  EmblTotal.readInfo_linebased_total a sq w hf tok hm hsa
 
 open EaselModel.Sqio.BodySpec EaselModel.Sqio.EmblAll in
 /-- **The whole reader of the line-based formats is total, for EVERY byte string and EVERY block size `B ≥ 1`**: from `esl_sqfile_Open` on
@@ -463,5 +479,21 @@ example :
       (MsaSeq.read h (freshSq 2)).2.2 = .ok ∧ (MsaSeq.read h (freshSq 2)).2.1.seq = #[0, 1, 2, 3] ∧
       (MsaSeq.read (MsaSeq.read h (freshSq 2)).1 (freshSq 2)).2.2 = .eof := by
   decide +kernel
+
+open EaselModel.Sqio.BodySpec EaselModel.Sqio.EmblAll EaselModel.Sqio.EmblTotalAll in
+/-- **every history of whole-record calls on a line-based file is total** (round 6b): from `esl_sqfile_Open` on (`openLine`), for EVERY
+    byte string, every block size `B ≥ 1` and EVERY list `cs` of calls (`false` = `sqascii_Read`, `true` = `sqascii_ReadSequence`, each on
+    the reused `ESL_SQ`, stopping at the first status that is not `eslOK`): the series ends with `eslOK` (all succeeded), `eslEOF`, or
+    `eslEFORMAT` with a message - never a fault, no exception. -/
+theorem linebased_history_total (file : Sqio.Bytes) (B abc fmt : Nat) (eofOk : Bool) (inmap0 inmap1 : Sqio.Bytes) (hB : 1 ≤ B)
+    (hf : fmt = 2 ∨ fmt = 3 ∨ fmt = 4 ∨ fmt = 5) (hm : inmap1.size = 128) (sq : Sq)
+    (hmap : MapOk inmap1 (if sq.digital then abcInmap sq.abc else inmap1)) (cs : List Bool) :
+    ((runCalls cs (openLine file B abc fmt eofOk inmap0 inmap1) sq).2 = .ok ∨
+     (runCalls cs (openLine file B abc fmt eofOk inmap0 inmap1) sq).2 = .eof ∨
+     (runCalls cs (openLine file B abc fmt eofOk inmap0 inmap1) sq).2 = .eformat) ∧
+    ((runCalls cs (openLine file B abc fmt eofOk inmap0 inmap1) sq).2 = .eformat →
+      (runCalls cs (openLine file B abc fmt eofOk inmap0 inmap1) sq).1.haveErr = true) ∧
+    (runCalls cs (openLine file B abc fmt eofOk inmap0 inmap1) sq).1.exc = false :=
+  runCalls_open_total file B abc fmt eofOk inmap0 inmap1 hB hf hm sq hmap cs
 
 end EaselModel.Props.C02
